@@ -121,13 +121,15 @@ FlagByte(g, w) == IF Len(g) = 0 THEN 0
 RECURSIVE Cat(_)
 Cat(ss) == IF Len(ss) = 0 THEN <<>> ELSE ss[1] \o Cat(Tail(ss))
 
-RECURSIVE EncGroups(_, _)
+\* tokens a..b (at most 8) as one group: flag byte, then the tokens
+GroupBytes(F, ts, a, b) ==
+  <<FlagByte(SubSeq(ts, a, b), 128)>> \o Cat([i \in 1..(b - a + 1) |-> EncTok(F, ts[a + i - 1])])
+
+\* all groups in order (iteration over the group index; TLC evaluates FoldLeft without recursion)
 EncGroups(F, ts) ==
-  IF Len(ts) = 0 THEN <<>>
-  ELSE LET k == Min(8, Len(ts))
-           g == SubSeq(ts, 1, k)
-       IN <<FlagByte(g, 128)>> \o Cat([i \in 1..k |-> EncTok(F, g[i])])
-            \o EncGroups(F, SubSeq(ts, k + 1, Len(ts)))
+  LET n == Len(ts) IN
+  SX!FoldLeft(LAMBDA acc, g : acc \o GroupBytes(F, ts, 8 * (g - 1) + 1, Min(8 * g, n)), <<>>,
+              [g \in 1..CeilDiv(n, 8) |-> g])
 
 HeaderBytes(F, n) == << F.type, n % 256, (n \div 256) % 256, (n \div 65536) % 256 >>
 
@@ -200,12 +202,24 @@ DStep(F, s, d) ==
 RECURSIVE RunFrom(_, _, _)
 RunFrom(F, s, d) == IF d.st \in Terminal THEN d ELSE RunFrom(F, s, DStep(F, s, d))
 
+\* Derived macro step: when all unread flag bits of the current group announce literals and
+\* the stream and the declared length have room for them, take them in one step.  Equal to
+\* d.bits consecutive Literal steps of DStep.
+FastStep(F, s, d) ==
+  LET b == d.bits IN
+  IF d.st = "run" /\ b >= 2 /\ d.flags % (2 ^ b) = 0
+     /\ d.pos + b - 1 <= Len(s) /\ Len(d.out) + b <= d.declared
+  THEN [d EXCEPT !.out = d.out \o SubSeq(s, d.pos, d.pos + b - 1), !.bits = 0, !.pos = d.pos + b,
+                 !.why = "Literal"]
+  ELSE DStep(F, s, d)
+
 \* The same run written as a bounded iteration (every step consumes a stream byte or
-\* terminates, so Len(s) + 3 steps suffice); TLC evaluates FoldLeft without recursion,
-\* which matters for streams of thousands of tokens.  MC_LZ checks RunIter = RunFrom.
+\* terminates, so Len(s) + 3 steps suffice) over FastStep; TLC evaluates FoldLeft without
+\* recursion, which matters for streams of thousands of tokens.  MC_LZ checks
+\* RunIter = RunFrom on every stream variant of the scaled model.
 RunIter(F, s, d) ==
-  SX!FoldLeft(LAMBDA acc, x : IF acc.st \in Terminal THEN acc ELSE DStep(F, s, acc), d,
-           [i \in 1..(Len(s) + 3) |-> i])
+  SX!FoldLeft(LAMBDA acc, x : IF acc.st \in Terminal THEN acc ELSE FastStep(F, s, acc), d,
+              [i \in 1..(Len(s) + 3) |-> i])
 
 \* decode the stream that starts off bytes into s
 Decode(F, s, off) == RunIter(F, s, Dec0(off))
